@@ -20,6 +20,12 @@ action of `Mmtk.Sched.step` from the state reached so far.
 * The front end also attributes each `notify_one` to the worker whose `MonWake` it explains (operand
   `b` of `MonNotify`/`MonRequested`) and resolves which packets a `steal_batch_and_pop` moved
   (pseudo event `BatchMove`); both choices are *checked* here (guards of `notifyOne`, `batchMove`).
+* Events of OTHER threads that are logged while a group is in progress (mutators are resumed in the
+  middle of the last parker's group, and run during every group of ConcurrentImmix's concurrent phase)
+  are applied after the whole group — the order justified in the header of `Model/Sched.lean`.  In
+  particular the `notify_all` of a WakeAll group has already happened when such an event is replayed: a
+  mutator's `notify_one` logged between `VmResume` and the group's `MonNotify(1)` must be attributed to
+  nobody (every waiter is `woken`); the front end attributes accordingly, `notifyOne` checks it.
 
 At the end of every GC (`goalCompleted gc`) the model state must be quiescent.
 -/
@@ -143,6 +149,21 @@ def observeAll (m : M) : M :=
       if add.isEmpty then s else setPc s w (.polling (add ++ seen))
     | _ => s) m.s
   { m with s := s' }
+
+def pcName : PC → String
+  | .polling _ => "polling"
+  | .exec _ => "exec"
+  | .parking => "parking"
+  | .waiting => "waiting"
+  | .woken => "woken"
+  | .exited => "exited"
+  | .surrendered => "surrendered"
+
+/-- diagnostic for a refused notify: the guards of `bucketNotifyOne` / `mutNotifyOne` / `notifyOne` -/
+def notifyCtx (m : M) (bk : Nat) (x : Option Nat) : String :=
+  let pcs := (List.range m.c.n).map fun w => pcName (m.s.pc w)
+  s!"target {repr x} (model: bucket open={(m.s.bkt bk).isOpen} enabled={(m.s.bkt bk).enabled}, workers {pcs}, " ++
+  s!"parked={m.s.parked}, current={natOfCur m.s.current})"
 
 def isWorkerTid (m : M) (tid : Nat) : Option Nat :=
   if 100 ≤ tid ∧ tid < 100 + m.c.n then some (tid - 100) else none
@@ -317,10 +338,10 @@ def onEvent (m : M) (tid kind a b : Nat) : M :=
         if lp == 1001 then (if a == 1 then act m (.wakeAll w) s!"wakeAll {w}" else fail m "sched:shape" "notify_mutators_paused must notify all")
         else if lp < 255 then
           (if a == 1 then act m (.bucketNotifyAll w lp) s!"bucketNotifyAll {w} {lp}"
-           else act m (.bucketNotifyOne w lp (tgt b)) s!"bucketNotifyOne {w} bucket {lp} target {repr (tgt b)}")
+           else act m (.bucketNotifyOne w lp (tgt b)) s!"bucketNotifyOne {w} bucket {lp} {notifyCtx m lp (tgt b)}")
         else fail m "sched:shape" s!"MonNotify({a}) by worker {w} without a preceding push/open"
       | none =>
-        if lp < 255 && a == 0 then act m (.mutNotifyOne lp (tgt b)) s!"mutNotifyOne bucket {lp}"
+        if lp < 255 && a == 0 then act m (.mutNotifyOne lp (tgt b)) s!"mutNotifyOne bucket {lp} {notifyCtx m lp (tgt b)}"
         else fail m "sched:shape" s!"MonNotify({a}) by thread {tid} without a preceding push"
   | 13 => -- BqPush
     let key := keyOf a b
